@@ -1878,7 +1878,21 @@ class Lowerer:
         """C binding units: a call to a C++ API function defined outside this TU becomes a generated
         stub that records every argument under the callee's own parameter name (from the C++ header)"""
         name = d.get('name')
+        pds = self.params_of(d)
         base = 'rec_' + mangle(name if not name.startswith('operator') else 'op')
+        if self.spec.get('recorder_names') == 'qualified':
+            # rec_<Class>_<Method>: stable under the order in which wrappers are lowered
+            rec_n = self.idx.record_of_method(d) if d.get('kind') in ('CXXMethodDecl', 'CXXConstructorDecl', 'CXXConversionDecl') else None
+            if rec_n is not None:
+                OPN = {'+': 'add', '-': 'sub', '^': 'xor', '*': 'mul', '/': 'div', '+=': 'add_assign', '-=': 'sub_assign', '^=': 'xor_assign',
+                       '==': 'eq', '!=': 'ne', '=': 'assign', '[]': 'index', '()': 'call', '<': 'lt'}
+                mname = mangle(name) if not name.startswith('operator') else 'op_' + OPN.get(name[len('operator'):].strip(), 'x')
+                base = 'rec_%s_%s' % (mangle(self.idx.qname[rec_n['id']].split('::')[-1]), mname)
+                nover = len([c for c in rec_n.get('inner', []) if c.get('name') == name and c.get('kind') in ('CXXMethodDecl', 'CXXConstructorDecl', 'FunctionTemplateDecl')])
+                if nover > 1:
+                    # overloaded: the parameter types are part of the name, so it does not depend on lowering order
+                    sig = '_'.join(mangle(re.sub(r'\b(const|manifold::|std::|struct|class)\b|[&*\s]', '', p['type']['qualType'])) for p in pds) or 'void'
+                    base += '__' + sig
         pds = self.params_of(d)
         key = d['id']
         if key not in self.recorders:
@@ -1923,10 +1937,22 @@ class Lowerer:
             if rct != 'void':
                 if is_ref:
                     body.append('static %s r; return &r;' % self.cty(rt))
+                elif rt.kind == 'b':
+                    # scalar result: arbitrary, and remembered so a spec can require the wrapper to return it
+                    gl.append('%s;' % self.cdecl(rt, 'ghost_%s_ret' % cname))
+                    if rct == '_Bool':
+                        gl.append('_Bool nondet_bool(void);')
+                        body.append('_Bool r = nondet_bool(); ghost_%s_ret = r; return r;' % cname)   # an uninitialised _Bool is an arbitrary byte in cbmc
+                    else:
+                        body.append('%s r; ghost_%s_ret = r; return r;' % (rct, cname))
                 else:
                     body.append('%s r; return r;' % rct)
             text = '\n'.join(gl) + '\n%s %s(%s) { %s }' % (rct, cname, ', '.join(ps) or 'void', ' '.join(body))
             self.helper(cname, text)
+            if not hasattr(self, 'recorder_info'):
+                self.recorder_info = {}
+            self.recorder_info[cname] = {'callee': q, 'has_self': obj is not None, 'ghosts': [g.rstrip(';') for g in gl],
+                                         'ret_recorded': any('_ret' in g for g in gl)}
             self.recorders[key] = (cname, is_ref)
             self.note('external C++ API call %s -> recording stub %s(%s) (arguments stored under the C++ parameter names; result arbitrary)' % (q, cname, ', '.join(p.get('name', '?') for p in pds)))
         cname, is_ref = self.recorders[key]
@@ -2061,6 +2087,15 @@ class Lowerer:
             plist = split_top(param_text(sig)) if '(' in sig else []
             if at.kind == 'rec' and at.name == t.name and len(plist) == 1 and plist[0].rstrip().endswith('&'):
                 self.check_struct_copy(t, e)
+                if plist[0].rstrip().endswith('&&'):
+                    # MOVE construction from std::move(lvalue): the source is left in a moved-from state;
+                    # a spec can observe which object through MOVED_FROM_HOOK (default: no-op)
+                    src = args[0]
+                    while src.get('kind') in ('ImplicitCastExpr', 'MaterializeTemporaryExpr', 'ExprWithCleanups', 'CXXBindTemporaryExpr', 'ParenExpr') and src.get('inner'):
+                        src = src['inner'][0]
+                    if src.get('kind') == 'CallExpr' and self.callee_name(src) in ('move', 'std::move') and len(src.get('inner', [])) == 2:
+                        self.note('move construction from std::move(...) at %s: struct copy + MOVED_FROM_HOOK(source)' % where(e))
+                        return '(MOVED_FROM_HOOK((void*)%s), %s)' % (self.addr(src['inner'][1]), self.expr(args[0]))
                 return self.expr(args[0])
         if t.key.startswith('std::pair<'):
             if len(args) == 2:
